@@ -556,11 +556,9 @@ func (db *SingleBucketBackend) ForceDeleteBucket(name string) error {
 		}
 	}
 
-	// Delete the bucket itself
-	if err := db.fs.RemoveAll("."); err != nil {
-		return err
-	}
-
+	// The bucket itself is the root of the filesystem and cannot be deleted
+	// (see DeleteBucket). Removing "." would leave afero's MemMapFs without a
+	// root directory, after which listing the bucket never terminates.
 	return nil
 }
 
